@@ -31,6 +31,8 @@ type Oblig struct {
 	lemmaDecls []string
 	lemmaBody  string
 	lemmaFuel  int
+	lemmaOpaque []string
+	GenSecs    float64
 }
 
 type addrKind int
@@ -98,6 +100,9 @@ type fnEnc struct {
 	retCount int
 	deferred []*ssa.Defer
 	lits     map[string][]string
+	litVals  map[string][]ssa.Value
+	localArrV map[*ssa.Alloc]map[int]ssa.Value
+	lastStoreVal ssa.Value
 	capVal   map[*ssa.FreeVar]Term
 }
 
@@ -496,7 +501,7 @@ func (V *Verifier) encode(fn *ssa.Function) (enc *fnEnc, err error) {
 	e := &fnEnc{V: V, U: V.U, fn: fn, key: funcKey(fn), val: map[ssa.Value][]Term{}, addr: map[ssa.Value]*addrDesc{},
 		localArr: map[*ssa.Alloc]map[int]Term{}, reachIn: map[*ssa.BasicBlock]string{}, reachOut: map[*ssa.BasicBlock]string{},
 		heapOut: map[*ssa.BasicBlock]heapState{}, edgeCond: map[[2]*ssa.BasicBlock]string{}, counters: map[string]int{},
-		heapDecl: map[string]bool{}, params: map[string]Term{}, lits: map[string][]string{}, capVal: map[*ssa.FreeVar]Term{}}
+		heapDecl: map[string]bool{}, params: map[string]Term{}, lits: map[string][]string{}, litVals: map[string][]ssa.Value{}, localArrV: map[*ssa.Alloc]map[int]ssa.Value{}, capVal: map[*ssa.FreeVar]Term{}}
 	e.con = V.CS.ByKey[e.key]
 	V.U.emit = e.assert
 	defer func() { V.U.emit = nil }()
@@ -722,6 +727,24 @@ func (e *fnEnc) loopEnv(li *loopInfo, phiVal func(*ssa.Phi) Term, heap heapState
 						vars[in.Comment] = e.loadDesc(d, heap)
 						vars["&"+in.Comment] = Term{d.ref, "Int", in.Type()}
 					}
+				}
+			}
+		}
+	}
+	// named phis in blocks that dominate the header (source variables merged
+	// before the loop); the closest dominator wins
+	for _, b := range e.fn.DomPreorder() {
+		if !b.Dominates(li.header) || b == li.header {
+			continue
+		}
+		for _, in := range b.Instrs {
+			phi, ok := in.(*ssa.Phi)
+			if !ok {
+				break
+			}
+			if phi.Comment != "" {
+				if ts, ok := e.val[phi]; ok && len(ts) == 1 {
+					vars[phi.Comment] = ts[0]
 				}
 			}
 		}
